@@ -57,7 +57,7 @@ def value_class(values):
 
 
 def key_ok(k):
-    return k != "" and not any(c in k for c in " \t\r\n\v=")
+    return k != "" and not any(c in k for c in " \t\r\n\v\f=")
 
 
 _proto_cache = {}
@@ -172,6 +172,20 @@ def run_shard(spec, rec):
                 rec.sample(case)
         rec.enumerated("all strings of length <=%d over {a,SP,TAB,\",\\,=,CR,LF} as a value" % L)
         rec.count("exhaustive_values", len(part))
+    elif mode == "keys":
+        # keys that cannot be a kvline key: every critical character at the start / in the middle /
+        # at the end of an otherwise valid key, in the first / a later pair
+        crit = [" ", "\t", "\r", "\n", "\r\n", "=", "\x0b", "\x0c", "\n\r", " \n"]
+        n = 0
+        for base in ("Log", "SocksPort"):
+            for c in crit:
+                for k in (c + base, base[:2] + c + base[2:], base + c, base + c + c):
+                    for pairs in ([(k, "v")], [("ORPort", "0"), (k, "x y")], [(k, ""), ("ORPort", "0")]):
+                        go({"pairs": pairs})
+                        n += 1
+        go({"pairs": [("", "v")]})
+        rec.count("unencodable_key_cases", n + 1)
+        rec.enumerated("critical character x position in key x pair position")
     elif mode == "random":
         for i in range(spec["n"]):
             rnd = gen.rnd_for(spec["seed"], "C12", spec["shard"], i)
@@ -205,8 +219,10 @@ def replay(case, rec):
 def plan(tier, seed):
     if tier == "quick":
         sp = [{"mode": "exhaustive", "maxlen": 3, "part": i, "of": 4} for i in range(4)]
+        sp += [{"mode": "keys"}]
         sp += [{"mode": "random", "n": 700} for _ in range(10)]
     else:
         sp = [{"mode": "exhaustive", "maxlen": 4, "part": i, "of": 8} for i in range(8)]
+        sp += [{"mode": "keys"}]
         sp += [{"mode": "random", "n": 25000} for _ in range(12)]
     return sp
